@@ -47,7 +47,8 @@ def check(name, constraints, timeout_s=300, cross_check=False):
 
 
 def cvc5_check(solver, timeout_s):
-    smt = "(set-logic ALL)\n" + solver.to_smt2()
+    smt = "(set-logic ALL)\n" + solver.to_smt2().replace("ubv_to_int", "bv2nat")
+    timeout_s = min(timeout_s, 60)
     with tempfile.NamedTemporaryFile("w", suffix=".smt2", delete=False, dir=os.environ.get("BLV_SCRATCH", "/var/tmp")) as f:
         f.write(smt)
         path = f.name
@@ -90,3 +91,27 @@ def any_instance(text, cons, timeout_s=30):
     if r.model is None:
         return None
     return text_of_model(r.model, text)[0]
+
+
+def more_instances(text, cons, first_model, k, seed=0, timeout_s=20):
+    """up to k further models of `cons` whose texts differ from each other and from first_model"""
+    sym = [ch for ch in text.c if not isinstance(ch, int)]
+    if not sym or k <= 0:
+        return []
+    s = z3.Solver()
+    s.set("timeout", int(timeout_s * 1000))
+    s.set("random_seed", int(seed) % 1000)
+    for c in cons:
+        if c is True:
+            continue
+        s.add(z3.BoolVal(False) if c is False else c)
+    out = []
+    model = first_model
+    for _ in range(k):
+        s.add(z3.Or(*[ch != model.eval(ch, model_completion=True) for ch in sym]))
+        # push towards different characters: ask for at least a third of the symbolic positions to change
+        if s.check() != z3.sat:
+            break
+        model = s.model()
+        out.append(text_of_model(model, text)[0])
+    return out
